@@ -58,7 +58,8 @@ type vobOblig struct {
 	Bypass  bool       `json:"bypass"`  // request carries the translation-bypass header
 	Paths   [][]string `json:"paths"`   // mode "populate": every path of this root to a namespace leaf, all realised in ONE message
 	Solo    bool       `json:"solo"`    // only the translator under test is configured (names only / search attributes only)
-	Variant string     `json:"variant"` // "" | "tail" | "dirty" | "json" | "fill" (sibling namespace fields hold an unmapped name)
+	Variant string     `json:"variant"` // "" | "tail" | "rich" | "dirty" | "dirtyfirst" | "json" | "fill" (sibling namespace fields hold an unmapped name) | "evtype"
+	EvK     int        `json:"evk"`     // variant "evtype": which event type the event under test gets (index into the attributes members; -1 = WorkflowTaskCompleted)
 }
 
 const (
@@ -89,6 +90,31 @@ var vobFilled int // how many sibling fields the last build filled
 // judged by its last event). vobDirty: every event blob on the path also holds a failure message with invalid UTF-8, so the
 // blob goes through the repair path before it is translated.
 var vobTail, vobDirty bool
+
+// vobRich: like vobTail, but the neighbours carry content of their own that must not matter: before and after the event under
+// test an UpsertWorkflowSearchAttributes event whose container holds only an unmapped key, and a
+// SignalExternalWorkflowExecutionInitiated event naming an unmapped namespace (a batch is not judged by its last container)
+var vobRich bool
+
+// vobDirtyFirst: (with vobDirty) the event with the invalid failure message is the FIRST event of the blob, clean events follow
+var vobDirtyFirst bool
+
+// vobEvK: >= -1: the event under test, when the path leaves it through a field that is not an attributes member (links, ...), gets
+// an event type and a matching (empty) attributes member: -1 WorkflowTaskCompleted, k >= 0 the k-th attributes member (mod count)
+var vobEvK = -2
+
+// vobHits: how often a variant's construction (neighbour events, event type) actually applied during the last build
+var vobHits int
+
+func vobRichBefore() []*historypb.HistoryEvent {
+	return []*historypb.HistoryEvent{
+		{EventId: 1, EventType: enums.EVENT_TYPE_UPSERT_WORKFLOW_SEARCH_ATTRIBUTES, Attributes: &historypb.HistoryEvent_UpsertWorkflowSearchAttributesEventAttributes{
+			UpsertWorkflowSearchAttributesEventAttributes: &historypb.UpsertWorkflowSearchAttributesEventAttributes{
+				SearchAttributes: &commonpb.SearchAttributes{IndexedFields: map[string]*commonpb.Payload{"sa-neighbour-unmapped": vobPayload("v-n")}}}}},
+		{EventId: 2, EventType: enums.EVENT_TYPE_SIGNAL_EXTERNAL_WORKFLOW_EXECUTION_INITIATED, Attributes: &historypb.HistoryEvent_SignalExternalWorkflowExecutionInitiatedEventAttributes{
+			SignalExternalWorkflowExecutionInitiatedEventAttributes: &historypb.SignalExternalWorkflowExecutionInitiatedEventAttributes{Namespace: "ns-neighbour-unmapped"}}},
+	}
+}
 
 // vobDirty2: the blob holds invalid UTF-8 in a string that is NOT a failure message (an identity): the repair cannot fix it
 var vobDirty2 bool
@@ -177,6 +203,21 @@ func vobBuild(m protoreflect.Message, path []string, leafKind, value string) err
 				return fmt.Errorf("no event type for attributes member %s", path[0])
 			}
 			m.Set(md.Fields().ByName("event_type"), protoreflect.ValueOfEnum(protoreflect.EnumNumber(ev)))
+		} else if vobEvK >= -1 {
+			// the path leaves the event through a field outside the attributes oneof: the event is of SOME type
+			od := md.Oneofs().ByName("attributes")
+			var af protoreflect.FieldDescriptor
+			if vobEvK == -1 {
+				af = md.Fields().ByName("workflow_task_completed_event_attributes")
+			} else {
+				af = od.Fields().Get(vobEvK % od.Fields().Len())
+			}
+			name := "EVENT_TYPE_" + strings.ToUpper(strings.TrimSuffix(string(af.Name()), "_event_attributes"))
+			if ev, ok := enums.EventType_value[name]; ok {
+				m.Set(md.Fields().ByName("event_type"), protoreflect.ValueOfEnum(protoreflect.EnumNumber(ev)))
+				_ = m.Mutable(af).Message()
+				vobHits++
+			}
 		}
 	}
 	if len(path) == 1 {
@@ -206,9 +247,14 @@ func vobBuild(m protoreflect.Message, path []string, leafKind, value string) err
 		}
 		evs := hist.Interface().(*historypb.History).Events
 		if vobDirty {
-			evs = append(evs, &historypb.HistoryEvent{EventId: 99, EventType: enums.EVENT_TYPE_WORKFLOW_TASK_FAILED,
+			de := &historypb.HistoryEvent{EventId: 99, EventType: enums.EVENT_TYPE_WORKFLOW_TASK_FAILED,
 				Attributes: &historypb.HistoryEvent_WorkflowTaskFailedEventAttributes{WorkflowTaskFailedEventAttributes: &historypb.WorkflowTaskFailedEventAttributes{
-					Failure: &failurepb.Failure{Message: vobDirtyMark}}}})
+					Failure: &failurepb.Failure{Message: vobDirtyMark}}}}
+			if vobDirtyFirst {
+				evs = append([]*historypb.HistoryEvent{de}, evs...)
+			} else {
+				evs = append(evs, de)
+			}
 		}
 		if vobDirty2 {
 			evs = append(evs, &historypb.HistoryEvent{EventId: 98, EventType: enums.EVENT_TYPE_WORKFLOW_TASK_STARTED,
@@ -242,12 +288,26 @@ func vobBuild(m protoreflect.Message, path []string, leafKind, value string) err
 		if vobTail && isEvents {
 			m.Mutable(fd).List().Append(protoreflect.ValueOfMessage(vobPlainEvent(1).ProtoReflect()))
 		}
+		if vobRich && isEvents {
+			for _, e := range vobRichBefore() {
+				m.Mutable(fd).List().Append(protoreflect.ValueOfMessage(e.ProtoReflect()))
+			}
+		}
+		if (vobRich || vobTail) && isEvents {
+			vobHits++
+		}
 		el := m.Mutable(fd).List().AppendMutable().Message()
 		if err := vobBuild(el, path[1:], leafKind, value); err != nil {
 			return err
 		}
 		if vobTail && isEvents {
 			m.Mutable(fd).List().Append(protoreflect.ValueOfMessage(vobPlainEvent(9).ProtoReflect()))
+		}
+		if vobRich && isEvents {
+			for _, e := range vobRichBefore() {
+				e.EventId += 20
+				m.Mutable(fd).List().Append(protoreflect.ValueOfMessage(e.ProtoReflect()))
+			}
 		}
 		return nil
 	case fd.IsMap():
@@ -323,13 +383,17 @@ func vobRead(m protoreflect.Message, path []string, leafKind string, set *string
 		if err != nil {
 			return nil, err
 		}
+		var lead []*historypb.HistoryEvent
+		if vobDirty && vobDirtyFirst && len(events) > 0 {
+			lead, events = events[:1], events[1:]
+		}
 		hist := &historypb.History{Events: events}
 		out, err := vobRead(hist.ProtoReflect(), path[2:], leafKind, set)
 		if err != nil {
 			return nil, err
 		}
 		if set != nil {
-			nb, err := serializer.SerializeEvents(hist.Events)
+			nb, err := serializer.SerializeEvents(append(append([]*historypb.HistoryEvent{}, lead...), hist.Events...))
 			if err != nil {
 				return nil, err
 			}
@@ -345,6 +409,9 @@ func vobRead(m protoreflect.Message, path []string, leafKind string, set *string
 		idx := 0
 		if vobTail && fd.Kind() == protoreflect.MessageKind && fd.Message().FullName() == "temporal.api.history.v1.HistoryEvent" && m.Get(fd).List().Len() >= 2 {
 			idx = 1
+		}
+		if vobRich && fd.Kind() == protoreflect.MessageKind && fd.Message().FullName() == "temporal.api.history.v1.HistoryEvent" && m.Get(fd).List().Len() >= 3 {
+			idx = 2
 		}
 		return vobRead(m.Get(fd).List().Get(idx).Message(), path[1:], leafKind, set)
 	case fd.IsMap():
@@ -660,8 +727,11 @@ func TestVerifSchemaObligations(t *testing.T) {
 		}
 		useIC := ic
 		vobSaKeys = []string{vobSaLocal, vobSaOther, "sa-same"}
-		vobTail, vobDirty, vobFill = ob.Variant == "tail", ob.Variant == "dirty", ""
-		vobJSON = ob.Variant == "json"
+		vobTail, vobDirty, vobFill = ob.Variant == "tail", ob.Variant == "dirty" || ob.Variant == "dirtyfirst", ""
+		vobJSON, vobRich, vobDirtyFirst, vobEvK = ob.Variant == "json", ob.Variant == "rich", ob.Variant == "dirtyfirst", -2
+		if ob.Variant == "evtype" {
+			vobEvK = ob.EvK
+		}
 		// a translator must not remember anything about a message type: the first time a root type is seen in this process an
 		// EMPTY message of that type (nothing to translate) goes through the same interceptor first
 		pk := fmt.Sprint(ob.Mode, "|", ob.Solo, "|", ob.Root.Type, "|", ob.Root.Dir)
@@ -697,7 +767,7 @@ func TestVerifSchemaObligations(t *testing.T) {
 		rec := map[string]interface{}{"ev": "Oblig", "mode": ob.Mode, "solo": ob.Solo, "variant": ob.Variant, "id": ob.ID, "leaf": ob.Leaf, "service": ob.Root.Service, "dir": ob.Root.Dir,
 			"stream": ob.Root.Stream, "type": ob.Root.Type, "path": ob.Path, "reached": ob.Reached, "skipped": ob.Skipped, "inblob": ob.InBlob,
 			"in": []string{}, "out": []string{}, "err": "", "rest_equal": false, "built": false}
-		if ob.Variant == "dirty" {
+		if vobDirty {
 			for i, p := range ob.Path {
 				if p == "@blob" && !vobLegacyHas(ob.Path[i+1:len(ob.Path)-0]) {
 					rec["scope"] = "not-in-legacy-schema"
@@ -723,11 +793,16 @@ func TestVerifSchemaObligations(t *testing.T) {
 				rec["err"] = "build: " + err.Error()
 				return
 			}
+			vobHits = 0
 			if err := vobBuild(m, ob.Path, ob.Leaf, val); err != nil {
 				rec["err"] = "build: " + err.Error()
 				return
 			}
 			rec["built"] = true
+			if (ob.Variant == "tail" || ob.Variant == "rich" || ob.Variant == "evtype") && vobHits == 0 {
+				rec["scope"] = "variant-not-applicable"
+				return
+			}
 			orig := proto.Clone(m.Interface())
 			readFrom := m
 			if vobDirty {
@@ -738,10 +813,14 @@ func TestVerifSchemaObligations(t *testing.T) {
 					rec["err"] = "build: " + err.Error()
 					return
 				}
-				vobDirty = true
 				readFrom = twin
 			}
+			wasDirty := vobDirty
+			if readFrom != m {
+				vobDirty = false // the twin holds no event that needs repair
+			}
 			inVals, err := vobRead(readFrom, ob.Path, ob.Leaf, nil)
+			vobDirty = wasDirty || readFrom != m
 			if err != nil {
 				rec["err"] = "read-in: " + err.Error()
 				return
@@ -759,7 +838,7 @@ func TestVerifSchemaObligations(t *testing.T) {
 			}
 			rec["out"] = outVals
 			// nothing else changed: put the original leaf back and compare with the original message
-			if ob.Variant == "dirty" {
+			if vobDirty {
 				// what the repair does to the invalid field is C17/C18's subject; here: the blob decodes again and the leaf is judged
 				rec["rest_equal"] = true
 			} else if strings.HasPrefix(ob.Leaf, "ns") {
@@ -774,6 +853,6 @@ func TestVerifSchemaObligations(t *testing.T) {
 			}
 		}()
 		_ = enc.Encode(rec)
-		vobTail, vobDirty, vobFill, vobJSON = false, false, "", false
+		vobTail, vobDirty, vobFill, vobJSON, vobRich, vobDirtyFirst, vobEvK = false, false, "", false, false, false, -2
 	}
 }
